@@ -1,0 +1,7 @@
+//go:build !verif
+
+package lexer
+
+const verifOn = false
+
+func verifTick() {}
